@@ -16,6 +16,7 @@ import (
 	assettypes "github.com/comdex-official/comdex/x/asset/types"
 	auctypes "github.com/comdex-official/comdex/x/auctionsV2/types"
 	lendtypes "github.com/comdex-official/comdex/x/lend/types"
+	liqv1types "github.com/comdex-official/comdex/x/liquidation/types"
 	liqtypes "github.com/comdex-official/comdex/x/liquidationsV2/types"
 	markettypes "github.com/comdex-official/comdex/x/market/types"
 
@@ -53,6 +54,7 @@ type Variant struct {
 	Users []string
 	LowT1 bool  // pool 1 holds almost none of its first transit asset: cross-pool borrows bridge through the second one
 	Batch uint64 // liquidation sweep batch size (0 = module default)
+	V1    bool   // first generation: x/liquidation borrow liquidation + x/auction lend Dutch auctions (V2 liquidation not enabled for the app)
 }
 
 var Variants = map[string]Variant{
@@ -200,10 +202,19 @@ func NewFix(v Variant) *Fix {
 			f.App = a.Id
 		}
 	}
-	// V2 liquidation / auction configuration for the lend app (Dutch auctions only)
-	e.App.NewliqKeeper.SetLiquidationWhiteListing(ctx, liqtypes.LiquidationWhiteListing{AppId: f.App, Initiator: true, IsDutchActivated: true,
-		DutchAuctionParam:  &liqtypes.DutchAuctionParam{Premium: dec("1.2"), Discount: dec("0.7"), DecrementFactor: sdk.NewInt(1)},
-		IsEnglishActivated: false, KeeeperIncentive: dec("0.1")})
+	if v.V1 {
+		// first generation: lend Dutch auction parameters of the app; the V2 liquidation module is NOT enabled for it
+		must(k.AddAuctionParamsData(ctx, lendtypes.AuctionParams{AppId: f.App, AuctionDurationSeconds: 3600, Buffer: dec("1.2"), Cusp: dec("0.7"),
+			Step: sdk.NewInt(360), PriceFunctionType: 1, DutchId: 3, BidDurationSeconds: 3600}))
+		if v.Batch > 0 {
+			e.App.LiquidationKeeper.SetParams(ctx, liqv1types.Params{LiquidationBatchSize: v.Batch})
+		}
+	} else {
+		// V2 liquidation / auction configuration for the lend app (Dutch auctions only)
+		e.App.NewliqKeeper.SetLiquidationWhiteListing(ctx, liqtypes.LiquidationWhiteListing{AppId: f.App, Initiator: true, IsDutchActivated: true,
+			DutchAuctionParam:  &liqtypes.DutchAuctionParam{Premium: dec("1.2"), Discount: dec("0.7"), DecrementFactor: sdk.NewInt(1)},
+			IsEnglishActivated: false, KeeeperIncentive: dec("0.1")})
+	}
 	e.App.NewaucKeeper.SetAuctionParams(ctx, auctypes.AuctionParams{AuctionDurationSeconds: 3600, Step: dec("0.1"), WithdrawalFee: dec("0.0"),
 		ClosingFee: dec("0.0"), MinUsdValueLeft: 100000, BidFactor: dec("0.1"), LiquidationPenalty: dec("0.1"), AuctionBonus: dec("0.0")})
 
